@@ -319,3 +319,10 @@ MENU_STALE = menu(MENU_HUB, items={"advance_big": 3, "set_ext": 4, "accrue": 1, 
 PLANS["C06"]["drive"] = PLANS["C06"]["drive"] + [dict(name="rewards-slash", menu=MENU_REWARDS_SLASH, runs=(150, 4000), len=40, consts=dict(MaxBatch=8, NV=2, InitVals=[1, 2]))]
 PLANS["C02"]["drive"] = [dict(name="rewards-slash", menu=MENU_REWARDS_SLASH, runs=(150, 4000), len=40, consts=dict(MaxBatch=8, NV=2, InitVals=[1, 2]))]
 PLANS["C09"]["drive"] = PLANS["C09"]["drive"] + [dict(name="stale", menu=MENU_STALE, runs=(150, 4000), len=40, consts=dict(MaxBatch=8))]
+
+# the airdrop flow (ClaimAirdrop -> airdrop contract -> SwapHook -> token Send -> pair -> reward contract), with stub airdrop contracts
+AIRDROP_ITEMS = {"set_airdrop": 3, "airdrop_cfg": 2, "airdrop_claim": 4, "airdrop_fab": 3, "ugi_hooks": 4, "index_update": 2, "claim": 2}
+PLANS["C19"]["mc"].append(hf_mc("airdrop", extra=dict(Features=["core", "reward", "airdrop"], Amts=[10], RewardAmts=[40, 100], Dts=[3]), depth=(3, 4)))
+PLANS["C19"]["sim"].append(hf_sim("airdrop", extra=dict(Features=["core", "reward", "airdrop"], Amts=[10], RewardAmts=[40, 100])))
+PLANS["C19"]["drive"].append(dict(name="airdrop", menu=menu(MENU_DISP, items=AIRDROP_ITEMS), runs=(100, 3000), len=40, consts=dict(MaxBatch=8)))
+PLANS["C11"]["drive"][1]["menu"] = menu(PLANS["C11"]["drive"][1]["menu"], items=AIRDROP_ITEMS)
